@@ -214,6 +214,21 @@ check("C14",
       "TLA+ promise table + reference index arithmetic (C14_Procedural, C14_MC) checked with TLC; TLC trace validation of every generator output with MeshCore (C14_Trace)",
       "DESIGN.md 6.14")
 
+check("C04",
+      "TLC checks that an independent reference codec written in TLA+ from the format descriptions (readers and writers for obj, "
+      "medit .mesh, geogram_ascii, off, tet, xyz over uninterpreted token lines) is lossless within each format's vocabulary on a "
+      "family of meshes (point cloud, polyline, triangles, quad, mixed, pentagon, one / two tetrahedra, hexahedron) and emits files. "
+      "Three bindings, all judged by TLC: (i) files written by mouette are split into tokens without interpretation (each float literal "
+      "becomes the id of its float64 bit pattern) and read by the reference reader - must equal Project_f(mesh); (ii) files written by "
+      "the reference writer are loaded by mouette; (iii) mouette loads what it saved - containers must equal Build(Project_f(mesh)), "
+      "class by content, declared edges stay the hard edges, geogram attributes (bool/int/float, arity 1-3, vertices/edges/faces/cells) "
+      "come back with name, type, arity, values. Coordinates come from a pool with negative, tiny (5e-324), huge (1e300) and 17-digit "
+      "values; binary STL is unpacked into float32 bit patterns per triangle corner.",
+      "Float formatting/parsing is Python's own, observed through bit patterns only. Completed edges are outside the obj/medit vocabulary; "
+      "medit element order is compared per kind. One open known finding (.off quads/polygons). .ply is not writable.",
+      "TLA+ reference codec (C04_Codec) model-checked for losslessness; TLC trace validation of token-level files and loaded containers (C04_Trace, C02_Build)",
+      "DESIGN.md 6.4")
+
 ALL = ["C%02d" % i for i in range(1, 21)]
 
 
